@@ -14,6 +14,7 @@ pub mod c02;
 pub mod c03;
 pub mod c04;
 pub mod c08;
+pub mod c11;
 pub mod c13;
 pub mod c14;
 pub mod c15;
@@ -34,6 +35,8 @@ pub fn run_property(prop: &str, ctx: &Ctx) -> Option<Report> {
         "C10" => mgrx::run(ctx, "C10"),
         "C08" => c08::run(ctx, "C08"),
         "C09A" => c08::run(ctx, "C09"),
+        "C11" => c11::run(ctx, "C11"),
+        "C12" => c11::run(ctx, "C12"),
         "C13" => c13::run(ctx),
         "C14" => c14::run(ctx),
         "C15" => c15::run(ctx),
